@@ -222,6 +222,14 @@ def grid_compat(prog: Program) -> List[Instance]:
         ok = any(p and has_call(e, "is_almost_int", lambda c: c.args and short(c.args[0]) == arg and _arg_is(c, 1, "tol", "tol")) for e, p in cs)
         out.append(Instance("R-GUARDSEQ", f"{bb.qual}#grid:round:{arg}", OK if ok else BAD,
                             f"round({arg}) only after is_almost_int({arg}, tol) held" if ok else f"round({arg}) without the near-integer guard on {arg}: sub-pixel shifted grids are silently snapped", bb.where(n)))
+    # a value accepted as near-integer must be converted with round(), not truncated
+    for n in walk_own(bb.node):
+        if isinstance(n, ast.Call) and isinstance(n.func, ast.Name) and n.func.id == "int" and len(n.args) == 1 and isinstance(n.args[0], ast.Name):
+            st = enclosing_stmt(n)
+            arg = n.args[0].id
+            if any(p and has_call(e, "is_almost_int", lambda c: c.args and short(c.args[0]) == arg) for e, p in conds_at(cond, st)):
+                out.append(Instance("R-GUARDSEQ", f"{bb.qual}#grid:trunc:{arg}", BAD,
+                                    f"`{short(n)}` truncates a value that was only checked to be *near* an integer: 27.999999999999996 becomes 27, the box is one pixel off", bb.where(n)))
     # result box: (a, b, a + w, b + h) - the far corner is the near corner plus the shape
     for r in (n for n in walk_own(bb.node) if isinstance(n, ast.Return) and isinstance(n.value, ast.Call) and call_name(n.value) == "BoundingBox"):
         a = r.value.args[:4]
@@ -583,6 +591,8 @@ def identity_shortcircuit(prog: Program) -> List[Instance]:
     if len(tcs) == 1:
         rk = next((k.value for k in tcs[0].keywords if k.arg == "resolution"), tcs[0].args[1] if len(tcs[0].args) > 1 else None)
         okf = rk is not None and "npoints" in org.deps(rk) and short(tcs[0].args[0]) == pn[1]
+        # on no branch may the densification be switched off
+        okf = okf and not any(isinstance(x, ast.Constant) and x.value is None for x in ast.walk(rk))
         bufs = [n for n in walk_own(fp.node) if isinstance(n, ast.Call) and call_name(n) == "buffer"]
         okf = okf and all(b.lineno <= tcs[0].lineno for b in bufs)
     out.append(Instance("R-GUARDSEQ", f"{fp.qual}#densify-at-projection", OK if okf else BAD,
